@@ -125,9 +125,12 @@ HEXP = [4.5, 2.0, -0.5, 0.5, 2.0, -1.0, 2.0, 5.0]
 
 
 def check_history(case):
+    import importlib
+
     from ioos_qc.config_creator import fx_parser
 
-    fx_parser.exprStack[:] = []  # the state at import: empty stack
+    # every history starts from the module's true initial state (fresh module-level objects)
+    fx_parser = importlib.reload(fx_parser)
     vs = []
     obs = []
     for step, opi in enumerate(case["ops"]):
